@@ -118,6 +118,33 @@ def run(ctx):
             z = rng.choice([None, 0, Fraction(1, 2), 3, 5, Fraction(11, 2), 20])
             cases.append([1, nested, pes, P(q), dy(z)]); meta.append(('set', 'nested' if nested else 'union'))
             ctx.dist('set_nested' if nested else 'set_union'); ctx.dist('set_z' if z is not None else 'set_noz')
+    # edit histories on one Polygons object (add / replace vertices through setX+setY), then a query
+    nhist = 150 if quick else 3000
+    for i in range(nhist):
+        ops = []; cur = []
+        for k in range(rng.randint(1, 3)):
+            base = gen_polygon(rng, rng.choice(['star', 'rect', 'stair', 'comb']), rng.choice([4, 6, 10]))
+            if len(base) < 3: continue
+            pts, s, tx, ty = scale_pts(rng, variants(rng, base))
+            ops.append([0, [[P(p) for p in pts], [], []]]); cur.append(pts)
+        if not cur: continue
+        for k in range(rng.randint(1, 3)):
+            ip = rng.randrange(len(cur))
+            r = rng.random()
+            if r < .5:      # translate the current vertices
+                tdx, tdy = Fraction(rng.randint(-40, 40), 4), Fraction(rng.randint(-40, 40), 4)
+                newp = [(x + tdx, y + tdy) for x, y in cur[ip]]
+            elif r < .75:   # open <-> closed
+                newp = cur[ip][:-1] if (len(cur[ip]) > 3 and cur[ip][0] == cur[ip][-1]) else cur[ip] + [cur[ip][0]]
+            else:           # a new shape
+                base = gen_polygon(rng, rng.choice(['star', 'rect']), rng.choice([4, 6]))
+                if len(base) < 3: continue
+                newp, s, tx, ty = scale_pts(rng, variants(rng, base))
+            ops.append([1, ip, [P(p) for p in newp]]); cur[ip] = newp
+        nested = rng.random() < .3
+        for q in queries(rng, [p for c_ in cur for p in c_], 4):
+            cases.append([3, nested, ops, P(q), []]); meta.append(('history', ''))
+            ctx.dist('history')
     # db_polygon selections
     ndb = 40 if quick else 600
     for i in range(ndb):
@@ -153,14 +180,14 @@ def run(ctx):
         ii = impl[i] if i < len(impl) else None
         if mi and mi[0] == -999:
             print('ERROR: model rejected case', i); sys.exit(3)
-        if c[0] in (0, 1):
+        if c[0] in (0, 1, 3):
             m_ans, onb, spec = mi
             if onb:
                 ctx.cov['tie_excluded'] += 1; ctx.count(None, False); continue
             ctx.count(sx_str(c)); ctx.sample({'case': sx_str(c)[:300], 'impl': ii, 'model': mi})
             if ii is None or ii[0] != m_ans or m_ans != spec:
                 ndis += 1
-                what = 'PolyElem::inside' if c[0] == 0 else ('Polygons::inside nested' if c[1] else 'Polygons::inside union')
+                what = 'PolyElem::inside' if c[0] == 0 else (('Polygons::inside nested' if c[1] else 'Polygons::inside union') + (':after-edits' if c[0] == 3 else ''))
                 if ii is None:
                     ctx.violation('crash:' + what, 'impl produced no answer (crash) on case %d' % i, {'case': sx_str(c)}); found_input = True
                 elif ii[0] != spec:
